@@ -157,7 +157,7 @@ func contract_MarshalOptions_flags(o MarshalOptions) (f protoiface.MarshalInputF
 // @ nopanic
 // @ guard-errors
 // @ callsite methods.Marshal: iff(arg[protoiface.MarshalInput](0).Flags&protoiface.MarshalDeterministic != 0, o.Deterministic)
-// @ callsite methods.Marshal: imp(o.Deterministic, methods.Flags&protoiface.SupportMarshalDeterministic != 0)
+// @ site in := protoiface.MarshalInput{...: imp(o.Deterministic, methods.Flags&protoiface.SupportMarshalDeterministic != 0)
 // @ callsite o.marshalMessageSlow: recv[MarshalOptions]().Deterministic == old(o.Deterministic)
 func contract_MarshalOptions_marshal(o MarshalOptions, b []byte, m protoreflect.Message) (out protoiface.MarshalOutput, err error) {
 	domain(!o.UseCachedSize) // callers setting the deprecated option take over the obligation themselves
